@@ -1,6 +1,6 @@
 """C05 — models documented by a closed-form expression return that expression (structural parts)."""
 from .. import facts, run
-from ..rules import dep, sib, models, footprint
+from ..rules import dep, sib, models, footprint, pure
 
 
 def main(tier):
@@ -18,6 +18,9 @@ def main(tier):
     footprint.ridge_alias_twins(P, rep)    # (dist, v) of the cooling formulas come from one and the same ridge point
     rep.assumptions.append("Chapman geotherm, mass-conserving slab and tian2019 parameterisations have no independent closed form short "
                            "enough to serve as an oracle: not decided; numerical accuracy not decided")
+    # the answer does not depend on what was queried before (no cache that outlives a query: a necessary condition for a
+    # statement about 'all worlds and all points', which includes a second world in the same process)
+    pure.run(P, rep, pure.query_roots(P))
     rep.explanation = ("Sibling cross-check of all replicated model classes in normal form (one closed form per family), operation "
                        "discipline of every temperature/composition model, model range guards with inclusive bounds, sentinel "
                        "handling of 'negative means global/adiabatic' parameters, and algebraic comparison of the simple closed forms.")
